@@ -167,7 +167,13 @@ func runC02Stall(s *kernel.Sim) {
 var srcAddrs = []string{"10.1.2.3:5555", "[2001:db8::7]:4444", "host.example.org:3333", "[::1]:2222", "203.0.113.9:1", "[fe80::1]:9", ":7777", "[::]:8888", "0.0.0.0:9999", "[fe80::1%eth0]:51234", "[fe80::5%abc0]:6"}
 
 func overrides(a, other *Actor, pick int) string {
-	switch pick % 25 {
+	switch pick % 28 {
+	case 25:
+		return "enode://" + a.ID + "@[::%25eth0]:30303" // the unspecified address, with a zone: still nowhere to dial
+	case 26:
+		return "enode://" + a.ID + "@1:2:3" // neither an address nor a name
+	case 27:
+		return "enode://" + a.ID + "@[0:0:0:0:0:0:0:0%25lo]"
 	case 22:
 		return "enode://" + a.ID + "@198.51.100.4:99999" // not a port: nobody can dial that
 	case 23:
@@ -343,7 +349,7 @@ func runWorldSeq(s *kernel.Sim, p profile) {
 					payout = a.Wallet.Addr
 				}
 				if p.uriOverrides && a.IsHost {
-					ov = overrides(a, anyActor(), d.choose("override", 25))
+					ov = overrides(a, anyActor(), d.choose("override", 28))
 				}
 				d.Connect(a, payout, ov, false)
 			case 2: // keep-alive
@@ -436,7 +442,7 @@ func runWorldSeq(s *kernel.Sim, p profile) {
 				if a.IsHost {
 					ov := ""
 					if p.uriOverrides {
-						ov = overrides(a, anyActor(), d.choose("override", 25))
+						ov = overrides(a, anyActor(), d.choose("override", 28))
 					}
 					d.Connect(a, "", ov, true)
 				} else {
